@@ -106,7 +106,8 @@ def run_case(triple, where):
             desc = '%s %s' % ('git-nbmergedriver' if app == 'driver' else 'nbmerge',
                               ' '.join(a.replace(d + os.sep, '') for a in argv))
             if where.get('locale'):
-                desc += ' (process locale %s, not UTF-8; notebooks with text outside ASCII)' % where['locale']
+                desc += (' (process locale %s, not UTF-8; notebooks with text outside ASCII)' % where['locale'] if where['locale'] == 'C' else
+                         ' (PYTHONIOENCODING=%s in a UTF-8 process; notebooks with text outside ASCII)' % where['locale'][3:])
 
             others = sorted(k for k in set(before) | set(after) if k != outname and before.get(k) != after.get(k))
             if others:
@@ -146,7 +147,9 @@ def run_case(triple, where):
                     fails.append(('output-missing', '%s: finished (%s) but there is no output file %s' % (desc, how, outname)))
                 return fails, info
             try:
-                text = data.decode('utf8')
+                # what goes to stdout is in the encoding the user forced on the standard streams, files are UTF-8
+                enc = where['locale'][3:] if (not with_out and str(where.get('locale') or '').startswith('io-')) else 'utf8'
+                text = data.decode(enc)
                 json.loads(text)
             except ValueError as e:
                 fails.append(('output-not-json', '%s: output %s is not well-formed JSON (%s); %d bytes, starts %r' % (
@@ -245,6 +248,10 @@ def subprocess_plan(seed, count):
                                                  ('cli', 'plain', False), ('driver', 'plain', True), ('cli', 'null-base', True), ('cli', 'plain', False)]):
         out.append({'seed': seed, 'n': 8, 'index': k, 'gen': 'nonascii', 'locale': 'C', 'app': app, 'layout': layout, 'mode': 'subproc',
                     'with_out': with_out, 'pre_out': bool(k % 2), 'pathname': True, 'explicit': True, 'strategy': list(CORE[0]), 'fault': None})
+    # standard streams forced to latin-1 / ascii through PYTHONIOENCODING in an otherwise UTF-8 process: the notebook printed to stdout
+    for k, loc in enumerate(['io-latin-1', 'io-ascii', 'io-latin-1', 'io-ascii']):
+        out.append({'seed': seed, 'n': 8, 'index': 6 + k % 2 if k < 2 else k, 'gen': 'nonascii', 'locale': loc, 'app': 'cli', 'layout': 'plain', 'mode': 'subproc',
+                    'with_out': k == 3, 'pre_out': False, 'pathname': True, 'explicit': True, 'strategy': list(CORE[0]), 'fault': None})
     return out
 
 
